@@ -215,11 +215,12 @@ def run_meta(ctx, which, data, ref):
             ctx.exc(e)
         except Exception as e:  # noqa: BLE001
             ctx.exc(e); ctx.V("C06:malformed-id-unexpected-error", f"{which}: provider[{txt!r}] raised {e!r}", {"kind": "meta", "file": which, "id": txt}, repr(e))
-    ctx.counters["validate_calls"] += 1; ctx.ev()
-    try:
-        src.validate()
-    except Exception as e:  # noqa: BLE001
-        ctx.exc(e); ctx.V("C06:validate", f"{which}: source.validate() raised {e!r}", {"kind": "meta", "file": which}, repr(e))
+    for nth in (1, 2, 3):          # the file passes its own validation - every time it is asked
+        ctx.counters["validate_calls"] += 1; ctx.ev()
+        try:
+            src.validate()
+        except Exception as e:  # noqa: BLE001
+            ctx.exc(e); ctx.V("C06:validate" if nth == 1 else "C06:validate-repeated", f"{which}: source.validate() (call #{nth} on the same source) raised {e!r}", {"kind": "meta", "file": which}, repr(e)); break
     ctx.sample({"file": which, "version": ref["version"], "canonical": len(canon), "aliases": len(aliases), "ids": len(exp_ids)})
 
 
